@@ -155,6 +155,30 @@ def sleeper_model(ctx, repo, rule="R3"):
                    f"every other sleeper is parked on - they all end with CancelledError (the ping loop dies silently, nothing reports an unreachable spa or wakes on the next switch)", cs.loc)
 
 
+def config_read_at_definition(ctx, repo, rule, only_mods=None, skip_mods=None):
+    """a parameter default is evaluated ONCE, when the `def` is executed (at import): `retry_count=GeckoConfig.X` freezes
+    the value the configuration table held at that moment - a later switch of the table, or an application that sets
+    the member, is not seen by callers that rely on the default.  Every function parameter default of the package that
+    reads a member of the runtime configuration object is reported (the body of the function is the place to read it)."""
+    n = 0
+    for fi in repo.all_functions():
+        rel = fi.mod.rel
+        if "/driver/packs/" in rel or (only_mods and not any(m in rel for m in only_mods)) or (skip_mods and any(m in rel for m in skip_mods)):
+            continue
+        a = fi.node.args
+        pos = a.posonlyargs + a.args
+        pairs = list(zip(pos[len(pos) - len(a.defaults):], a.defaults)) + [(p, d) for p, d in zip(a.kwonlyargs, a.kw_defaults) if d is not None]
+        for p, d in pairs:
+            n += 1
+            reads = [x for x in ast.walk(d) if isinstance(x, ast.Attribute) and isinstance(x.value, ast.Name) and x.value.id == "GeckoConfig"]
+            if reads:
+                ctx.ob(rule, f"{fi.qual}::default::{p.arg}", False,
+                       f"{fi.qual}: the default of parameter `{p.arg}` reads `{ast.unparse(reads[0])}` - evaluated once, when the module is imported: callers that rely on the default keep the value the "
+                       f"configuration had at import, whatever it is set to afterwards (the configured limit is not the limit in force)", loc(fi, d))
+    ctx.ob(rule, "parameter-defaults::examined", n > 0, "no parameter default found in the examined modules")
+    ctx.count(f"{rule}:parameter defaults examined", n)
+
+
 def check(ctx):
     repo = Repo()
     m = cfg_mod(repo)
